@@ -1692,6 +1692,39 @@ fn check_field_offsets(file: &File, scope: &Scope, schema: &Schema) -> Result<()
 
         for field in decl.fields() {
             match &field.desc {
+                // Optional fields must start on an octet boundary, and have
+                // a size that is an integral number of octets.
+                _ if field.cond.is_some() => {
+                    if offset % 8 != 0 {
+                        diagnostics.push(
+                            Diagnostic::error()
+                                .with_code(ErrorCode::InvalidFieldOffset)
+                                .with_message(
+                                    "optional field is not aligned to an octet boundary".to_owned(),
+                                )
+                                .with_labels(vec![field.loc.primary()]),
+                        )
+                    }
+                    let width = match &field.desc {
+                        FieldDesc::Scalar { width, .. } => Some(*width),
+                        FieldDesc::Typedef { type_id, .. } => match scope.typedef.get(type_id) {
+                            Some(Decl { desc: DeclDesc::Enum { width, .. }, .. }) => Some(*width),
+                            _ => None,
+                        },
+                        _ => None,
+                    };
+                    if matches!(width, Some(width) if width % 8 != 0) {
+                        diagnostics.push(
+                            Diagnostic::error()
+                                .with_code(ErrorCode::InvalidFieldSize)
+                                .with_message(
+                                    "optional field size is not an integral number of octets"
+                                        .to_owned(),
+                                )
+                                .with_labels(vec![field.loc.primary()]),
+                        )
+                    }
+                }
                 FieldDesc::Typedef { type_id, .. }
                     if matches!(
                         scope.typedef.get(type_id),
